@@ -582,6 +582,9 @@ def check_lift_structure(ctx):
 
 
 def run(ctx):
+    from ..lints import check_stale_loop_variables
+
+    check_stale_loop_variables(ctx, "C01-D9 loop-variables", ['circuits._circuit', 'circuits._unitary_tools', 'circuits._gates', 'circuits._operations', 'circuits._wavefunction_operations', 'api.wavefunction_simulator', 'runners.symbolic_simulator'])
     repo = ctx.repo
     base = repo.func("api.wavefunction_simulator:BaseWavefunctionSimulator.get_wavefunction")
     check_threading(ctx, base, "initial_state", allow_fresh=True)
